@@ -241,12 +241,10 @@ def r4(ctx):
     # = / != take the glob path exactly when is_glob(val)
     for op in ("Eq", "Ne"):
         body = t.get(op)
-        ms = [x for x in find_matches(body, min_arms=2) if is_call_to(peel(x["scrut"]), IS_GLOB)]
+        ifs = find_ifs(body, lambda c: is_call_to(c, IS_GLOB)) if body else []
         ok = False
-        if ms:
-            tt = {key_name(k): a["body"] for a in match_arms(ms[0]) for k in a["keys"]}
-            glob_side = tt.get("true")
-            lit_side = tt.get("false")
+        if ifs:
+            _, glob_side, lit_side = ifs[0]
             ok = glob_side is not None and lit_side is not None and _translator_of(glob_side) == ["convert_glob_to_pattern"] \
                 and not _translator_of(lit_side) and not any("is_match" in render(x) for x in [lit_side])
         ctx.obligation(ok)
